@@ -167,7 +167,8 @@ def case_legacy(case):
             for magic_byte, sl in msgs:
                 ent = {"raw": sl.hex(), "magic": magic_byte}
                 if cfg["codec"] and st is not None:
-                    sl2 = ref.stamp_legacy(sl, st["offset"], st["lat"])
+                    acc = [r for r, s in zip(recs, res["steps"]) if s[1] is not None]
+                    sl2 = ref.stamp_legacy(sl, st["base"] + (acc[-1][0] if acc else 0), st["lat"])
                 else:
                     sl2 = sl
                 ent["stamped"] = sl2.hex()
